@@ -121,7 +121,13 @@ def run_prop(run, scr, tier, seed, prop, e1=None, diff=(), diff_load=(2, 8), ext
             run.violation('skeleton-' + mism[0]['name'][:60], f'{mism[0]["name"]}: {mism[0]["detail"][:300]} ; confirmed natively: {confirmed[0][0]}: {confirmed[0][1][:2]}', path)
         else:
             run.inconclusive.append(f'{len(mism)} obligation(s) do not hold but the native differential tests {list(diff)} found no disagreement: {mism[0]["name"]}: {mism[0]["detail"][:300]}')
-    run.samples = [{'obligation': q.get('name') or q.get('harness'), 'verdict': q.get('verdict')} for q in run.queries[:14]]
+    sk = [q for q in run.queries if q.get('engine') == 'E2 skeleton/lemma']
+    sm = [q for q in run.queries if str(q.get('engine', '')).startswith(('E2 mir->smt', 'SMT'))]
+    kn = [q for q in run.queries if q.get('harness')]
+    run.samples = [{'obligation': q.get('name') or q.get('harness'), 'engine': q.get('engine'), 'verdict': q.get('verdict'), 'solver_s': q.get('solver_s'), 'detail': str(q.get('detail', ''))[:160]} for q in sk[:6] + sm[:4] + kn[:4]]
+    run.extra['bounds'] = ['skeleton obligations: unbounded in K, L, omega, message and context length (calls uninterpreted); loops cut after one iteration, the rejection loop analysed as one iteration from an arbitrary counter',
+                           'closure / kernel lemmas: every coefficient value in the range the producer guarantees (ranges listed per lemma); both gamma2 values',
+                           'Kani harnesses: see per-harness bounds'] + sorted({str(q.get('bounds')) for q in run.queries if q.get('bounds')})
     return mism
 
 
